@@ -6,7 +6,13 @@ CFG = {
              "exactly once in order, all but the last of the nominal height, which is a positive multiple of the split "
              "height, len = ceil(h/F), exactly one fragment iff the image is empty/small, the format has no split height "
              "or global dithering applies; the indexed collect of encode_parallel gives the same vector for every "
-XX
+             "completion permutation; fragment-wise output = whole-image output for every encoder that is row-group "
+             "local, and row-group locality is PROVED for a data-flow model of every encoder family with arbitrary "
+             "per-pixel / per-block functions (for_each_chunk contiguous and row-wise, process_subsample, "
+             "for_each_f32_rgba_rows + block_universal incl. bottom/right padding), the families that are not local "
+             "(Bayer row index, bi-planar, error diffusion) being never split; put together over the pinned tables "
+             "(73 formats x 12 colours x 4 options) in fragmentwise_eq_whole_all_families (16 theorems, no size bound). "
+             "Tie: SplitView geometry over a size grid around "
              "every fragment threshold for every format, and dds::encode parallel (pools of 1..16 threads, completion "
              "orders natural/reversed/random/free imposed through the dds_verif hook) vs sequential vs "
              "fragment-by-fragment, byte for byte, in release and overflow-checking builds.",
@@ -22,7 +28,9 @@ XX
             "t/w and around 1..3 fragment heights; 4 qualities; dithering none/color/alpha/all) + PRNG sizes over all "
             "formats; encode cases over all 57 encodable formats (every family in each quarter of the list) x sizes "
             "(wider than a fragment, at the threshold, few and many fragments, tiny) x 12 color formats x dithering x "
-XX
+            "quality Fast/Normal(/High thorough) x error metric x 1..16 threads x 4 orders; pad cases: every block / "
+            "sub-sampled format x widths 1..19 and around the 512-pixel chunk (sub-sampled) or 1..18 (BCn) x heights "
+            "1..11 vs the block-aligned image built with the model's padding rules; non-trivial = a geometry or "
             "an encode was produced (not a support-record or bad-case line); distinct = distinct case lines",
     "assumptions": [
         "the implementation equals the model off the generated cases",
